@@ -11,6 +11,7 @@ import (
 	"runtime"
 	"strings"
 	"sync/atomic"
+	"time"
 
 	badgerlib "github.com/dgraph-io/badger/v4"
 	d "github.com/ostafen/clover/v2/document"
@@ -25,6 +26,9 @@ type recStore struct {
 	failAt  int64 // fail the call with this index (0-based); -1 = never
 	exitAt  int64 // os.Exit(137) at this call; -1 = never
 	yield   bool
+	stall   bool  // hold every other read-only transaction's Rollback until two more write commits went through
+	commits int64 // successful write commits
+	reads   int64
 	fired   int32
 	trace   []string
 	tracing bool
@@ -75,14 +79,16 @@ func (s *recStore) Begin(update bool) (store.Tx, error) {
 	if err != nil {
 		return nil, err
 	}
-	return &recTx{s: s, inner: tx}, nil
+	return &recTx{s: s, inner: tx, update: update}, nil
 }
 
 func (s *recStore) Close() error { return s.inner.Close() }
 
 type recTx struct {
-	s     *recStore
-	inner store.Tx
+	s      *recStore
+	inner  store.Tx
+	update bool
+	done   bool
 }
 
 func (t *recTx) Set(key, value []byte) error {
@@ -117,9 +123,31 @@ func (t *recTx) Commit() error {
 	if err := t.s.tick("commit"); err != nil {
 		return err
 	}
-	return t.inner.Commit()
+	err := t.inner.Commit()
+	t.done = true
+	if err == nil && t.update {
+		atomic.AddInt64(&t.s.commits, 1)
+	}
+	return err
 }
-func (t *recTx) Rollback() error { return t.inner.Rollback() }
+
+// Rollback of a read-only transaction is where a reader lets go of its snapshot. With stall set, every other one
+// then waits (bounded) for two further write commits, so that anything the reader still holds from the
+// released snapshot (a slice into a recycled page, say) is used after writers have moved on.
+func (t *recTx) Rollback() error {
+	err := t.inner.Rollback()
+	if t.s.stall && !t.update && !t.done {
+		t.done = true
+		if atomic.AddInt64(&t.s.reads, 1)%2 == 0 {
+			start := atomic.LoadInt64(&t.s.commits)
+			deadline := time.Now().Add(6 * time.Millisecond)
+			for atomic.LoadInt64(&t.s.commits) < start+2 && time.Now().Before(deadline) {
+				time.Sleep(100 * time.Microsecond)
+			}
+		}
+	}
+	return err
+}
 
 type recCursor struct {
 	s     *recStore
